@@ -474,6 +474,10 @@ def run(P, R, L):
     R.clause("TRIG-1", "a writer delayed or parked for level-0 relief always has a due level-0 compaction: level 0 is scored by file count / D, due means score >= 1, "
              "and D is not above the slow-down / stop triggers")
     blind.trig1_level0_stall_has_a_due_compaction(P, R, L)
+    R.clause("PROG-2", "make_room_for_write rotates the memtable only when a flush was forced or the memtable is not empty: the loop makes progress for every max_memtable_size")
+    blind.prog2_rotation_needs_a_non_empty_memtable(P, R, L)
+    R.clause("ORD-12 (shared worker)", "Drop for DB stops and joins the compaction thread on every path and never unwraps a sole-ownership test of the worker that client iterators share")
+    blind.ord12b_close_does_not_unwrap_shared_ownership(P, R, L)
     R.clause("PAIR-10", "a table builder that was finalized/abandoned is removed from the compaction state on every path (a later abandon() of a closed "
              "builder would panic the background thread while the scheduled flag is set)")
     K.pair10_builder_slot(P, R, L)
